@@ -11,6 +11,20 @@ extended by
   * ["set", key, kind, value]     Parameter.set with an exact value (kind "ps": Gaussian rational on the
                                    unit circle; "bs": [c, s]; "loss": [a, b] with loss = b^2);
   * ["copyf", new, src]           src.copy(freeze_parameters=True).
+A phase may be *wound*: the value [g, k] (g a Gaussian rational on the unit circle) stands for the float
+atan2(g) + 2*pi*k handed to the library (exactly 2*pi, -pi, ...); the model and the rebuilt programs see g.
+A constant wound phase is a ps op whose trailing dict carries {"wind": k}.
+
+VALUES AT REWRITE TIME.  A rewrite may not specialise on the value a live Parameter happens to hold when it
+runs: `DEGENERATE` lists, per field, the values at which a component degenerates (loss 0 = identity, loss 1,
+reflectivity 1 = identity in the Rx convention, reflectivity 0 = a pure swap in the H convention, phase 0, pi,
+2*pi, -pi).  `corpus_degenerate` and the "degenerate" mode of `random_history` put such components - Parameter
+valued and constant - as the ONLY element between two swaps of which the second acts on the component's modes,
+at the top level and inside groups, apply every rewrite sequence to copies that stay linked to the same
+Parameters, and only THEN move the Parameters to generic values (and back to another degenerate value, and on).
+`bs(.., loss=P)` / `ps(.., loss=P)` are recorded by `Sym` as the call without loss followed by loss(m, P) calls:
+the library adds the Loss components of a Parameter-valued `loss=` even when its value is 0, those of a literal
+0 it does not, so this is the only spelling whose rebuild is right for every value of P.
 
 `Sym` is the reference semantics of such a history at the level the property speaks about: for every
 live circuit it keeps a *recipe* - the construction calls that made it, with sub-circuits as nested
@@ -42,6 +56,11 @@ REWRITE_OPS = ("unpack", "compress", "nonadj")
 NT_PYTH = [(c, s) for c, s in PYTH if 0 < c < 1]  # beam splitters that really mix
 NT_CIRCLE = [g for g in CIRCLE if g.im != 0]  # phases that are not +-1
 LOSSY = [(a, b) for a, b in PYTH if b != 0]
+NT_LOSS = [(a, b) for a, b in PYTH if 0 < b < 1]
+# values at which a component degenerates (see the module docstring); phases as value specs (g | [g, wind])
+DEGENERATE = {"ps": ["1,0", "-1,0", ["1,0", 1], ["-1,0", -1], ["1,0", -1]],
+              "bs": [["1", "0"], ["0", "1"]],
+              "loss": [["1", "0"], ["0", "1"]]}
 
 # --------------------------------------------------------------------------- op helpers
 
@@ -53,8 +72,11 @@ def extras(op: list) -> dict:
 def val_float(kind: str, v) -> float:
     """the float handed to the library for an exact value (same conversions as circgen.apply_op)"""
     if kind == "ps":
+        wind = 0
+        if isinstance(v, list):
+            v, wind = v
         g = GQ.parse(v)
-        return math.atan2(float(g.im), float(g.re))
+        return math.atan2(float(g.im), float(g.re)) + 2 * math.pi * wind
     if kind == "bs":
         return float(Fraction(v[0]) ** 2)
     return float(Fraction(v[1]) ** 2)
@@ -69,7 +91,8 @@ def op_value(op: list, which: str):
     if which == "lparam":
         return list(op[7]) if name == "bs" else list(op[4])
     if name == "ps":
-        return op[3]
+        k = extras(op).get("wind", 0)
+        return [op[3], k] if k else op[3]
     if name == "bs":
         return [op[4], op[5]]
     return [op[3], op[4]]
@@ -89,7 +112,7 @@ def literal_op(op: list, vals: dict) -> list:
     if "param" in ex:
         v = vals[ex["param"]]
         if name == "ps":
-            new[3] = v
+            new[3] = v[0] if isinstance(v, list) else v
         elif name == "bs":
             new[4], new[5] = v[0], v[1]
         else:
@@ -97,7 +120,7 @@ def literal_op(op: list, vals: dict) -> list:
     if "lparam" in ex:
         v = vals[ex["lparam"]]
         new[7 if name == "bs" else 4] = list(v)
-    new.append({k: x for k, x in ex.items() if k not in ("param", "lparam")})
+    new.append({k: x for k, x in ex.items() if k not in ("param", "lparam", "wind")})
     return new
 
 
@@ -119,8 +142,9 @@ def apply_op(pool: dict, pars: dict, op: list) -> str:
             pool[op[1]] = pool[op[2]].copy(freeze_parameters=True)
         elif name == "set":
             pars[op[1]].set(val_float(op[2], op[3]))
-        elif name == "ps" and ("param" in ex or "lparam" in ex):
+        elif name == "ps" and ("param" in ex or "lparam" in ex or "wind" in ex):
             _, cid, m, p, lossab, *_ = op
+            p = [p, ex["wind"]] if ex.get("wind") else p
             phi = par(ex["param"], "ps", p) if "param" in ex else val_float("ps", p)
             loss = par(ex["lparam"], "loss", lossab) if "lparam" in ex else _lossab_float(lossab)
             pool[cid].ps(m, phi, loss=loss)
@@ -326,7 +350,18 @@ class Sym:
                 if which in ex and ex[which] not in self.val:
                     self.val[ex[which]] = op_value(op, which)
                     self.kind[ex[which]] = kind_of(op, which)
-            self.rec[cid].append(("op", op))
+            if "lparam" in ex:
+                # bs / ps with loss=Parameter == the call without loss, then loss(mode, Parameter) per mode
+                core = [*op[:-1], {k: x for k, x in ex.items() if k != "lparam"}]
+                core[7 if name == "bs" else 4] = None
+                self.rec[cid].append(("op", core))
+                a, b = op_value(op, "lparam")
+                for m in (op[2], op[3]) if name == "bs" else (op[2],):
+                    lop = cg.op_loss(cid, m, Fraction(a), Fraction(b))
+                    lop[-1]["param"] = ex["lparam"]
+                    self.rec[cid].append(("op", lop))
+            else:
+                self.rec[cid].append(("op", op))
             if name == "herald":
                 self.lay[cid].declare(op[3], op[4])
 
@@ -413,6 +448,7 @@ class HistGen:
         self.k = 0
         self.keys: dict[str, list[str]] = {"ps": [], "bs": [], "loss": [], "lloss": []}
         self.p_param = p_param
+        self.p_degen = 0.0  # probability that a generated value is drawn from DEGENERATE
 
     # -- plumbing
     def emit(self, op: list) -> None:
@@ -454,24 +490,48 @@ class HistGen:
         if n < 2:
             kinds = [k for k in kinds if not k.startswith("bs")] or ["ps"]
         kind = rng.choice(kinds)
+        deg = self.p_degen > 0 and rng.random() < self.p_degen
+        if deg:
+            self.ctx.count("value:degenerate:" + kind)
+
+        def loss_kw(op: list, loss) -> None:
+            """the loss= of bs / ps: a Parameter may hold 0; a literal 0 is the same call as no loss at all"""
+            if loss is None:
+                return
+            as_par = rng.random() < pp
+            if as_par:
+                self.attach(op, "lparam", "lloss")
+            if deg and rng.random() < 0.7:
+                v = ["1", "0"] if as_par and rng.random() < 0.7 else ["0", "1"]
+                op[7 if op[0] == "bs" else 4] = v
+
         if kind in ("bs", "bs_loss"):
             m1, m2 = rng.sample(range(n), 2)
             c, s = rng.choice(NT_PYTH if rng.random() < 0.8 else PYTH)
             loss = rng.choice(LOSSY) if kind == "bs_loss" else None
+            if deg and (kind == "bs" or rng.random() < 0.5):
+                c, s = (Fraction(x) for x in rng.choice(DEGENERATE["bs"]))
             op = cg.op_bs(cid, m1, m2, c, s, rng.choice(["Rx", "H"]), loss)
             if rng.random() < pp:
                 self.attach(op, "param", "bs")
-            if loss is not None and rng.random() < pp:
-                self.attach(op, "lparam", "lloss")
+            loss_kw(op, loss)
         elif kind in ("ps", "ps_loss"):
             loss = rng.choice(LOSSY) if kind == "ps_loss" else None
             op = cg.op_ps(cid, rng.randrange(n), rng.choice(NT_CIRCLE if rng.random() < 0.8 else CIRCLE), loss)
+            if deg and (kind == "ps" or rng.random() < 0.5):
+                v = rng.choice(DEGENERATE["ps"])
+                if isinstance(v, list):
+                    op[3] = v[0]
+                    op[-1]["wind"] = v[1]
+                else:
+                    op[3] = v
             if rng.random() < pp:
                 self.attach(op, "param", "ps")
-            if loss is not None and rng.random() < pp:
-                self.attach(op, "lparam", "lloss")
+            loss_kw(op, loss)
         elif kind == "loss":
             a, b = rng.choice(PYTH)
+            if deg:
+                a, b = (Fraction(x) for x in rng.choice(DEGENERATE["loss"]))
             op = cg.op_loss(cid, rng.randrange(n), a, b)
             if rng.random() < pp:
                 self.attach(op, "param", "loss")
@@ -543,6 +603,28 @@ class HistGen:
                 self.swap(cid, boundary_bias=0)
             else:
                 self.herald(cid)
+        return cid
+
+    def generic_prim(self, cid: str, kinds: list[str] | None = None) -> None:
+        """a constant call with a generic value (content that tells the modes apart)"""
+        keep = self.p_degen
+        self.p_degen = 0.0
+        self.prim(cid, kinds=kinds or ["bs", "bs", "ps"], p_param=0.0)
+        self.p_degen = keep
+
+    def leaf_sandwich(self, maxq: int, heralded: bool) -> str:
+        """a small circuit that holds a `sandwich` (generic content before and after it)"""
+        rng = self.rng
+        q = rng.randint(min(2, max(1, maxq)), max(1, min(3, maxq)))
+        nh = 1 if heralded else 0
+        cid = self.new(q + nh, "s")
+        self.generic_prim(cid)
+        self.sandwich(cid)
+        if rng.random() < 0.6:
+            self.generic_prim(cid)
+        for _ in range(nh):
+            self.herald(cid)
+        self.ctx.count("block:leaf-with-sandwich" + (":heralded" if heralded else ""))
         return cid
 
     def unitary(self, maxq: int) -> str:
@@ -623,25 +705,50 @@ class HistGen:
         self.place(parent, sub, steer=steer)
 
     # -- values
-    def new_value(self, key: str, kind: str):
+    def new_value(self, key: str, kind: str, how: str = "any"):
+        """a value other than the current one; how = 'any' | 'generic' (the component really acts) | 'degenerate'"""
         rng = self.rng
         cur = self.sym.val.get(key)
+        fam = "loss" if kind == "lloss" else kind
         for _ in range(20):
-            if kind == "ps":
-                v = rng.choice(CIRCLE).s()
+            if how == "degenerate":
+                v = rng.choice(DEGENERATE[fam])
+            elif kind == "ps":
+                v = rng.choice(NT_CIRCLE if how == "generic" else CIRCLE).s()
             elif kind == "bs":
-                c, s = rng.choice(PYTH)
+                c, s = rng.choice(NT_PYTH if how == "generic" else PYTH)
                 v = [frac_str(c), frac_str(s)]
             else:
-                a, b = rng.choice(LOSSY if kind == "lloss" else PYTH)
+                a, b = rng.choice(NT_LOSS if how == "generic" else LOSSY if kind == "lloss" else PYTH)
                 v = [frac_str(a), frac_str(b)]
             if v != cur:
                 return v
         return v
 
-    def set_param(self, key: str, kind: str) -> None:
-        self.emit(["set", key, "loss" if kind == "lloss" else kind, self.new_value(key, kind)])
-        self.ctx.count("set:" + kind)
+    def set_param(self, key: str, kind: str, how: str = "any") -> None:
+        self.emit(["set", key, "loss" if kind == "lloss" else kind, self.new_value(key, kind, how)])
+        self.ctx.count("set:" + kind + ("" if how == "any" else ":" + how))
+
+    def sandwich(self, cid: str) -> None:
+        """swap, one or two primitive calls, then a swap that acts on a mode of those calls: the calls are all that
+        keeps the second swap from being merged into the first"""
+        rng = self.rng
+        n = self.lay(cid).n
+        if n < 2:
+            self.prim(cid, kinds=["ps", "loss", "ps_loss"])
+            return
+        self.swap(cid, boundary_bias=0.3)
+        k0 = len(self.prog)
+        for _ in range(rng.choice([1, 1, 1, 2])):
+            self.prim(cid, kinds=["ps", "loss", "loss", "bs", "bs", "ps_loss", "bs_loss"])
+        touched = sorted({m for op in self.prog[k0:] for m in ([op[2], op[3]] if op[0] == "bs" else [op[2]])})
+        first = rng.choice(touched)
+        k = 2 if (n == 2 or rng.random() < 0.7) else 3
+        modes = [first, *rng.sample([m for m in range(n) if m != first], k - 1)]
+        pairs = [[a, b] for a, b in zip(modes, modes[1:] + modes[:1])]
+        rng.shuffle(pairs)
+        self.emit(["swaps", cid, pairs])
+        self.ctx.count("sandwich:swap-calls-swap")
 
 
 # --------------------------------------------------------------------------- random histories
@@ -766,6 +873,82 @@ def random_history(ctx, rng) -> tuple[list, str]:
     if keys and rng.random() < 0.5:
         g.emit([rng.choice(REWRITE_OPS), rng.choice(members)])
         g.set_param(*rng.choice(keys))
+    return g.prog, main
+
+
+def degenerate_history(ctx, rng) -> tuple[list, str]:
+    """values at rewrite time: components (Parameter-valued and constant) whose value is degenerate while the
+    rewrites run, as the only thing between two swaps, at the top level and inside blocks; related circuits that
+    stay linked to the same Parameters (copies, hosts) or not (frozen copies); rewrites on any of them; THEN every
+    Parameter moves to a generic value; further rewrites; some Parameters back to a degenerate value; rewrites;
+    generic again"""
+    g = HistGen(ctx, rng, p_param=rng.choice([0.35, 0.6, 0.85]))
+    g.p_degen = rng.choice([0.5, 0.7, 0.9])
+    n = rng.randint(3, 5)
+    main = g.new(n, "m")
+    subs: list[str] = []
+    for _ in range(rng.randint(1, 3)):
+        g.generic_prim(main)
+    for _ in range(rng.randint(1, 3)):
+        r = rng.random()
+        if r < 0.55:
+            g.sandwich(main)
+        elif r < 0.9:
+            sub = g.leaf_sandwich(min(n, 3), heralded=rng.random() < 0.35)
+            subs.append(sub)
+            g.place(main, sub, group=rng.random() < 0.6)
+            if rng.random() < 0.7:
+                g.swap(main, boundary_bias=0.9)
+        else:
+            g.prim(main)
+        if rng.random() < 0.4:
+            g.generic_prim(main)
+    for _ in range(rng.randint(1, 2)):
+        g.generic_prim(main)
+    members = [main]
+    for _ in range(rng.choice([0, 1, 1, 2])):
+        src = rng.choice(members)
+        kind = rng.choice(["copy", "copy", "copyf", "host"])
+        if kind == "host":
+            ls = g.lay(src)
+            if ls.q == 0:
+                continue
+            new = g.new(ls.q + rng.randint(0, 1), "h")
+            if rng.random() < 0.5:
+                g.swap(new, 0)
+            g.place(new, src)
+            if rng.random() < 0.7:
+                g.swap(new)
+        else:
+            new = g.fresh("m")
+            g.emit([kind, new, src])
+        ctx.count("degenerate:family:" + kind)
+        members.append(new)
+    everyone = members + [s for s in subs if rng.random() < 0.5]
+
+    def rewrites(k: int) -> None:
+        for _ in range(k):
+            rw = rng.choice(["compress", "compress", "compress", "nonadj", "unpack"])
+            g.emit([rw, rng.choice(everyone)])
+            ctx.count("rewrite:" + rw)
+
+    keys = g.all_keys()
+    rewrites(rng.randint(1, 3))
+    for key, kind in keys:
+        g.set_param(key, kind, "generic")
+    rewrites(rng.randint(0, 2))
+    if keys and rng.random() < 0.6:
+        back = rng.sample(keys, rng.randint(1, min(2, len(keys))))
+        for key, kind in back:
+            g.set_param(key, kind, "degenerate")
+        rewrites(rng.randint(1, 2))
+        if rng.random() < 0.3:
+            tgt = rng.choice(members)
+            new = g.fresh("m")
+            g.emit(["copyf" if rng.random() < 0.5 else "copy", new, tgt])
+            everyone.append(new)
+        for key, kind in back:
+            g.set_param(key, kind, "generic")
     return g.prog, main
 
 
@@ -997,6 +1180,158 @@ def corpus_family(ctx, rng):
                 g.emit(["compress", ids[target]])
                 ctx.count(f"corpus:family:{base}")
                 yield g.prog, orig
+
+
+DEG_FIELDS = ["ps", "bs-adj", "bs-far", "loss", "bs-loss", "ps-loss"]
+DEG_PLACEMENTS = ["top", "group", "ungrouped", "nested", "heralded", "shared"]
+DEG_SEQS = [["compress"], ["nonadj", "compress"], ["unpack", "compress"], ["copyf", "compress"],
+            ["compress", "nonadj", "unpack"], ["unpack", "nonadj", "compress"], ["copy", "compress"], ["copyf"],
+            ["compress", "compress"], ["nonadj"], ["unpack"], ["compress", "copy", "unpack", "compress"],
+            ["nonadj", "copyf", "unpack", "compress"]]
+
+
+def _deg_values(field: str, carrier: str) -> list:
+    if field == "ps":
+        return DEGENERATE["ps"][:4]
+    if field in ("bs-adj", "bs-far"):
+        return [(v, conv) for v in DEGENERATE["bs"] for conv in ("Rx", "H")]
+    if field == "loss" or carrier == "param":
+        return DEGENERATE["loss"]
+    return DEGENERATE["loss"][1:]  # loss=0 as a literal is the same call as no loss
+
+
+def _deg_sandwich(g: HistGen, cid: str, w: int, field: str, val, carrier: str, idx: int, key: str | None = None) -> str | None:
+    """on the w >= 3 user modes of cid: a swap, ONE component with a degenerate value, a swap that acts on a
+    mode of that component; returns the key of the Parameter"""
+    if field == "bs-far":
+        m1, m2 = (w - 1, 0) if idx % 2 else (0, w - 1)
+    elif field in ("bs-adj", "bs-loss"):
+        lo = idx % (w - 1)
+        m1, m2 = (lo, lo + 1) if idx % 2 else (lo + 1, lo)
+    else:
+        m1 = m2 = idx % w
+    x = m1 if (idx // 2) % 2 else m2
+    others = [m for m in range(w) if m != x]
+    o1, o2 = others[idx % len(others)], others[(idx + 1) % len(others)]
+    g.emit(["swaps", cid, _pairs(x, o1) if (idx // 4) % 2 == 0 else _pairs(o1, o2)])
+    c, s = NT_PYTH[idx % len(NT_PYTH)]
+    which, kind = "param", field
+    if field == "ps":
+        wound = isinstance(val, list)
+        op = cg.op_ps(cid, x, GQ.parse(val[0] if wound else val))
+        if wound:
+            op[-1]["wind"] = val[1]
+    elif field in ("bs-adj", "bs-far"):
+        (vc, vs), conv = val
+        op = cg.op_bs(cid, m1, m2, Fraction(vc), Fraction(vs), conv)
+        kind = "bs"
+    elif field == "loss":
+        op = cg.op_loss(cid, x, Fraction(val[0]), Fraction(val[1]))
+    elif field == "bs-loss":
+        op = cg.op_bs(cid, m1, m2, c, s, "H" if idx % 2 else "Rx", (Fraction(val[0]), Fraction(val[1])))
+        which, kind = "lparam", "lloss"
+    else:
+        op = cg.op_ps(cid, x, NT_CIRCLE[idx % len(NT_CIRCLE)], (Fraction(val[0]), Fraction(val[1])))
+        which, kind = "lparam", "lloss"
+    if carrier == "param":
+        if key is None:
+            g.attach(op, which, kind, 0)
+            key = op[-1][which]
+        else:
+            op[-1][which] = key
+    g.emit(op)
+    g.emit(["swaps", cid, _pairs(x, o2) if idx % 3 else [[x, o1], [o1, o2], [o2, x]]])
+    return key
+
+
+def _tail(g: HistGen, cid: str, w: int, idx: int) -> None:
+    """generic content after a sandwich: what the modes meet afterwards differs from mode to mode"""
+    for j in range(w - 1):
+        c, s = NT_PYTH[(2 * idx + 5 * j + 3) % len(NT_PYTH)]
+        g.emit(cg.op_bs(cid, j, j + 1, c, s, "Rx" if (idx + j) % 2 else "H"))
+    g.emit(cg.op_ps(cid, idx % w, NT_CIRCLE[(idx + 11) % len(NT_CIRCLE)]))
+
+
+def corpus_degenerate(ctx, rng):
+    """VALUE AT REWRITE TIME x field x placement x carrier: the component (phase, reflectivity of an adjacent /
+    a reversed non-adjacent beam splitter, loss element, loss= of a beam splitter / phase shifter) holds a
+    degenerate value while the rewrites run and is all that separates two swaps; four copies (linked to the
+    same Parameters) and the original each get another rewrite sequence; then the Parameter moves to a generic
+    value, everyone is rewritten again, it moves to another degenerate value, rewrites, generic again"""
+    idx = 0
+    for placement in DEG_PLACEMENTS:
+        for carrier in ("param", "const"):
+            if carrier == "const" and placement not in ("top", "group", "heralded"):
+                continue
+            for field in DEG_FIELDS:
+                for val in _deg_values(field, carrier):
+                    idx += 1
+                    g = HistGen(ctx, rng, p_param=0.0)
+                    subs: list[str] = []
+                    if placement == "top":
+                        main = g.new(4, "m")
+                        _chain(g, main, 4, idx)
+                        _deg_sandwich(g, main, 4, field, val, carrier, idx)
+                        _tail(g, main, 4, idx)
+                    else:
+                        main = g.new(5, "m")
+                        _chain(g, main, 5, idx)
+                        g.emit(["swaps", main, _pairs(0, 1)])
+                        her = placement == "heralded"
+                        leaf = g.new(3 + (1 if her else 0), "s")
+                        subs.append(leaf)
+                        _chain(g, leaf, 3, idx + 1)
+                        key = _deg_sandwich(g, leaf, 3, field, val, carrier, idx)
+                        _tail(g, leaf, 3, idx + 2)
+                        if her:
+                            g.emit(cg.op_bs(leaf, 2, 3, *NT_PYTH[(idx + 5) % len(NT_PYTH)], "Rx"))
+                            g.emit(["herald", leaf, idx % 2, 3, 3])
+                        if placement == "nested":
+                            cellc = g.new(3, "k")
+                            g.emit(cg.op_ps(cellc, 2, NT_CIRCLE[(idx + 7) % len(NT_CIRCLE)]))
+                            g.place(cellc, leaf, group=idx % 2 == 0, m=0)
+                            g.place(main, cellc, group=True, m=1)
+                        else:
+                            g.place(main, leaf, group=placement != "ungrouped", m=1)
+                        g.emit(["swaps", main, _pairs(0, 1)])
+                        if placement == "shared":
+                            _deg_sandwich(g, main, 5, field, val, carrier, idx + 1, key)
+                        g.emit(["swaps", main, [[0, 4], [4, 1], [1, 0]]])
+                        _tail(g, main, 5, idx)
+                    live = []
+                    for j in range(4):
+                        cur = g.fresh("m")
+                        g.emit(["copy", cur, main])
+                        for rw in DEG_SEQS[(4 * idx + j) % len(DEG_SEQS)]:
+                            if rw in ("copy", "copyf"):
+                                new = g.fresh("m")
+                                g.emit([rw, new, cur])
+                                cur = new
+                            else:
+                                g.emit([rw, cur])
+                        live.append(cur)
+                    g.emit(["compress" if idx % 2 else "unpack", main])
+                    g.emit(["compress", main])
+                    live.append(main)
+                    for sub in subs:
+                        g.emit(["compress", sub])
+                    keys = g.all_keys()
+                    for key, kind in keys:
+                        g.set_param(key, kind, "generic")
+                    if keys:
+                        for j, cid in enumerate(live):
+                            g.emit([REWRITE_OPS[(idx + j) % 3], cid])
+                        for key, kind in keys:
+                            g.set_param(key, kind, "degenerate")
+                        for j, cid in enumerate(live):
+                            g.emit([["compress", "compress", "nonadj"][(idx + j) % 3], cid])
+                        fz = g.fresh("m")
+                        g.emit(["copyf", fz, live[idx % len(live)]])
+                        for key, kind in keys:
+                            g.set_param(key, kind, "generic")
+                    ctx.count(f"corpus:degenerate:{placement}:{carrier}")
+                    ctx.count(f"corpus:degenerate:field:{field}")
+                    yield g.prog, main
 
 
 def prog_key(prog: list) -> str:
